@@ -72,7 +72,7 @@ std::string prop_generate(Tape & t, int size) {
         if (total > cap) total = cap;
         sp.total = total;
         sp.parts = gen_partition(t, total, sp.sd.spd, 24);
-        sp.pat = gen_pattern(t, *sp.dt, {"random", "random", "ramp", "blocks", "const", "alt", "extremes", "rawbits", "small", "spike"}, sp.sd.spd);
+        sp.pat = gen_pattern(t, *sp.dt, {"random", "random", "ramp", "blocks", "const", "alt", "extremes", "rawbits", "small", "spike", "spike2"}, sp.sd.spd);
         plans.push_back(sp);
     }
     // interleave the writes
